@@ -897,6 +897,7 @@ func (fr *Frame) exec(st *State, in ssa.Instruction) {
 	case *ssa.Send:
 		u.abstracted = true
 		u.note("channel send in %s abstracted (no effect on modelled state)", fr.fn)
+		fr.atCall(st, "chan.send", []Val{fr.get(i.X), fr.get(i.Chan)}, i.Pos())
 		fr.afterCall(st, "chan.send", Val{T: "true", S: "Bool"})
 	case *ssa.Select:
 		fr.execSelect(st, i)
@@ -994,7 +995,8 @@ func (fr *Frame) execUnOp(st *State, i *ssa.UnOp) {
 			fr.vals[i] = fr.havocVal(i.Type(), fr.name(i))
 		}
 		// ghost event: visible to contracts as called("chan.recv") / count("chan.recv")
-		fr.afterCall(st, "chan.recv", Val{T: "true", S: "Bool"})
+		// (`after call chan.recv assume ...` sees the received value as res0, and ok as res1 for the comma-ok form)
+		fr.afterCall(st, "chan.recv", fr.vals[i])
 	default:
 		u.unsup("unop %s", i.Op)
 	}
@@ -1502,6 +1504,13 @@ func (fr *Frame) execSelect(st *State, i *ssa.Select) {
 		vals = append(vals, fr.havocVal(tup.At(k).Type(), fmt.Sprintf("%srecv%d", fr.name(i), k)))
 	}
 	fr.vals[i] = Val{Tup: vals}
+	// the value offered by a send case is visible to `at call chan.send` clauses as arg0 (it is evaluated whether or
+	// not the case is taken); arg1 is the channel
+	for _, sc := range i.States {
+		if sc.Dir == types.SendOnly && sc.Send != nil {
+			fr.atCall(st, "chan.send", []Val{fr.get(sc.Send), fr.get(sc.Chan)}, i.Pos())
+		}
+	}
 	// ghost: the chosen case is visible to contracts as ret("select")
 	fr.afterCall(st, "select", vals[0])
 }
